@@ -246,7 +246,7 @@ def cases(tier, seed):
         exact_ns = list(range(1, 41)) + [50, 64, 100, 128, 200]
         rt_ns = range(1, 25)
         idem = range(1, 13)
-        dig = [((1, 1), (4,)), ((2, 1), (4,)), ((1, 2), (2, 3)), ((2, 2), (3, 2)), ((3, 2), (2, 2)), ((2, 3), (2, 2, 2)), ((2, 2), (4, 3)), ((3, 3), (1, 2, 1))]
+        dig = [((1, 1), (4,)), ((2, 1), (4,)), ((1, 2), (2, 3)), ((2, 2), (3, 2)), ((3, 2), (2, 2)), ((2, 3), (2, 2, 2)), ((2, 2), (3, 3))]
     for n in exact_ns:
         cs.append(case_single(n, False))
     for n in rt_ns:
